@@ -73,6 +73,8 @@ def check_zone_vs_model(ctx, tz, label, z, pz, rng, siblings, shape):
             bad.append('abbreviation %r, rules say %r' % (got[2], exp[1]))
         if got[3] != (saving if exp[2] else D.timedelta(0)):
             bad.append('dst() %r, rules say %r' % (got[3], saving if exp[2] else D.timedelta(0)))
+        if got[4] == 1 and not tz.datetime_ambiguous(u + D.timedelta(seconds=got[0]), z):
+            bad.append('converted with fold=1 to a wall time that datetime_ambiguous() calls unambiguous')
         for sname, sz in siblings:
             try:
                 sg = answers_at(sz, u, UTC)
@@ -136,7 +138,7 @@ def check_first_year(ctx, tz, label, z, pz, first_year):
     UTC = tz.UTC
     s, e = pz.transitions(first_year)
     first = min(s, e)
-    pts = [first + D.timedelta(seconds=1), first + D.timedelta(days=20), max(s, e) - D.timedelta(days=1), max(s, e) + D.timedelta(seconds=1),
+    pts = [first + D.timedelta(seconds=1), first + D.timedelta(minutes=20), first + D.timedelta(days=20), max(s, e) - D.timedelta(days=1), max(s, e) + D.timedelta(seconds=1),
            max(s, e) + D.timedelta(days=20)]
     for u in pts:
         if u.year != first_year:
@@ -153,6 +155,12 @@ def check_first_year(ctx, tz, label, z, pz, first_year):
         except Exception as ex:
             ctx.violation('conversion-raised', {'zone': label, 'utc': u.isoformat()}, repr(ex))
             continue
+        # same handling of folds: a conversion marks fold=1 only on a wall time that really occurs twice in this zone (at the
+        # first onset nothing repeats when the observance in force before it - the first STANDARD one - has the same offset)
+        wall = u + D.timedelta(seconds=got[0])
+        if got[4] == 1 and not tz.datetime_ambiguous(wall, z):
+            ctx.violation('fold-flag-on-unambiguous-time', {'zone': label, 'utc': u.isoformat(), 'first_year': first_year},
+                          'UTC %s converts to %s fold=1, but datetime_ambiguous() of that wall time is False' % (u.isoformat(), wall.isoformat()))
         if got[1] != exp[0] or got[2] != exp[1]:
             ctx.violation('first-onset-ignored', {'zone': label, 'utc': u.isoformat(), 'first_year': first_year},
                           'in the first year (DTSTART onsets) got offset %d %r, rules say %d %r' % (got[1], got[2], exp[0], exp[1]))
